@@ -73,6 +73,52 @@ def run_profile(ctx, res, profile, nschemas, ndocs, pending):
                 pending.append(({"op": "xsd.parse", "mode": "strict", "ty": ty, "node": xmlcanon.node(doc, strip_ws=True)}, r, ty, c))
 
 
+def run_values_profile(ctx, res, nschemas, pending):
+    """documents that are reference serialisations of generated values (wide leaf table, list / restriction types,
+    per-declaration forms on elements and attributes, groups, wildcards, top-level repeating content)"""
+    from harness import valgen
+    from harness.props import c01
+    for i in range(nschemas):
+        seed = ctx.seed * 100000 + i
+        try:
+            case = enginea.VCase(seed)
+        except etree.XMLSchemaParseError:
+            res.count("schema-rejected-by-libxml2")
+            continue
+        res.programs += 1
+        for j in range(2):
+            st, feat, rng = case.value(j)
+            doc = valgen.strip_markers(valgen.ref_doc(case.src, st))
+            if not case.validator.validate(doc):
+                res.count("generated-doc-invalid")
+                continue
+            ty = case.model_type(xsdgen.height(doc) + 1)
+            text = etree.tostring(doc).decode()
+            c = dict(seed=seed, profile="values", index=j, xsd=case.xsd, document=text)
+            res.case(key=("values", seed, text), nontrivial=len(doc) > 0)
+            res.count("values-profile")
+            r = enginea.impl_parse(case, enginea.copy_node(doc), True)
+            fail = None
+            if r["outcome"] != "ok":
+                fail = "libxml2-valid document rejected in strict mode (%s %s)" % (r["outcome"], r.get("msg", ""))
+            else:
+                rr = enginea.impl_render(case, r["obj"])
+                if rr["outcome"] != "ok":
+                    fail = "decoded value cannot be re-serialised (%s %s)" % (rr["outcome"], rr.get("msg", ""))
+                elif enginea.canon_doc(enginea.copy_node(rr["node"]), ty) != enginea.canon_doc(doc, ty):
+                    fail = "re-serialising the decoded value does not reproduce the document"
+                    c["reserialised"] = etree.tostring(rr["node"]).decode()
+            if fail:
+                f = dict(what=fail, case=c)
+                known = "K8" if c01.is_k8_case(st) else ("K14" if "nil" in feat else ("K7" if "empty-lexical" in feat else None))
+                if known:
+                    f["known"] = known
+                    res.known_hits[known] = res.known_hits.get(known, 0) + 1
+                res.failures.append(f)
+            if r["outcome"] == "ok" and not (feat & {"nil", "xsi:type"}):
+                pending.append(({"op": "xsd.parse", "mode": "strict", "ty": ty, "node": xmlcanon.node(doc, strip_ws=True)}, r, ty, c))
+
+
 def compare_model(ctx, res, pending, relation="Xsd.parseNode vs Element.parse"):
     if not (ctx.model and pending):
         return
@@ -103,6 +149,7 @@ def run(ctx):
     pending = []
     run_profile(ctx, res, "core", ctx.n(300, 4000), 3, pending)
     run_profile(ctx, res, "multi-repeat", ctx.n(60, 600), 3, pending)
+    run_values_profile(ctx, res, ctx.n(120, 1500), pending)
     compare_model(ctx, res, pending)
     if pending:
         res.sample(dict(xsd=pending[0][3]["xsd"][:600], document=pending[0][3]["document"][:400]))
@@ -120,6 +167,16 @@ def search(ctx):
 def replay(ctx, payload):
     c = payload.get("case", payload)
     import random
+    if c["profile"] == "values":
+        case = enginea.VCase(c["seed"])
+        doc = etree.fromstring(c["document"].encode())
+        ty = case.model_type(xsdgen.height(doc) + 1)
+        r = enginea.impl_parse(case, doc, True)
+        if r["outcome"] != "ok":
+            return False, "strict decode: " + r["outcome"]
+        rr = enginea.impl_render(case, r["obj"])
+        ok = rr["outcome"] == "ok" and enginea.canon_doc(enginea.copy_node(rr["node"]), ty) == enginea.canon_doc(doc, ty)
+        return ok, "re-serialisation %s" % ("reproduces the document" if ok else "differs / fails: %s" % rr.get("msg"))
     if c["profile"] == "multi-repeat":
         case = enginea.Case(c["seed"], c["profile"], src=xsdgen.multi_repeat_schema(random.Random("MR-%s" % c["seed"])))
     else:
@@ -135,6 +192,9 @@ def replay(ctx, payload):
 
 
 WITNESS = {
+    "K7": ('<xs:schema xmlns:xs="http://www.w3.org/2001/XMLSchema" xmlns:t="urn:fam" targetNamespace="urn:fam" elementFormDefault="qualified"><xs:element name="root" type="t:T1"/>'
+           '<xs:complexType name="T1"><xs:sequence><xs:element name="a" type="xs:string"/><xs:element name="s" type="xs:string" minOccurs="0"/></xs:sequence></xs:complexType></xs:schema>',
+           '<root xmlns="urn:fam"><a>x</a><s></s></root>'),
     "K8": ('<xs:schema xmlns:xs="http://www.w3.org/2001/XMLSchema" xmlns:t="urn:fam" targetNamespace="urn:fam" elementFormDefault="qualified"><xs:element name="root" type="t:T1"/>'
            '<xs:complexType name="T1"><xs:sequence><xs:element name="e" type="t:T2"/></xs:sequence></xs:complexType>'
            '<xs:complexType name="T2"><xs:sequence><xs:element name="o" type="xs:string" minOccurs="0"/></xs:sequence></xs:complexType></xs:schema>',
